@@ -56,6 +56,14 @@ pub fn advance_ms(ms: u64) {
     MONO_OFFSET_NS.with(|c| c.set(c.get().saturating_add(ms.saturating_mul(1_000_000))));
 }
 
+/// This thread's simulated offset (a thread started on behalf of a client inherits it).
+pub fn offset_ns() -> u64 {
+    MONO_OFFSET_NS.with(|c| c.get())
+}
+pub fn set_offset_ns(ns: u64) {
+    MONO_OFFSET_NS.with(|c| c.set(ns));
+}
+
 /// How often the code under test read a monotonic clock on this thread since the last call.
 pub fn take_mono_reads() -> u64 {
     MONO_READS.with(|c| c.replace(0))
